@@ -150,7 +150,7 @@ func (u *UserHash) getFilename(isAdmin bool) string {
 	return filename + userExt
 }
 
-func (u *UserHash) writeHashStr(password string, isAdmin bool, mayCreate bool) error {
+func (u *UserHash) writeHashStr(password string, isAdmin bool, mayCreate bool) (err error) {
 	paramID := u.store.Default
 	hasher := u.store.Params[u.store.Default]
 	if hasher == nil {
@@ -174,6 +174,15 @@ func (u *UserHash) writeHashStr(password string, isAdmin bool, mayCreate bool) e
 		return err
 	}
 	defer file.Close() //nolint:errcheck
+	if mayCreate {
+		// O_CREATE|O_EXCL succeeded, so the (still empty) file is ours: give the
+		// reservation back if the hash can't be written
+		defer func() {
+			if err != nil {
+				os.Remove(file.Name()) //nolint:errcheck
+			}
+		}()
+	}
 
 	tmp, err := u.store.getTempFile()
 	if err != nil {
